@@ -18,7 +18,7 @@ use hickory_proto::rr::{DNSClass, Name, RData, Record, RecordType};
 use hickory_proto::serialize::binary::BinDecoder;
 
 /// Wire form of a name given in a tiny presentation syntax: labels separated by '.', a label
-/// `@N` stands for N octets of 'x' (N <= 63), `@@N` for N octets of 'X' (the upper-case twin). Case is preserved.
+/// `%HH` inside a label is one arbitrary octet; `@N` stands for N octets of 'x' (N <= 63), `@@N` for N octets of 'X' (the upper-case twin). Case is preserved.
 pub fn labels(s: &str) -> Vec<Vec<u8>> {
     let mut out = vec![];
     if s == "." {
@@ -29,6 +29,21 @@ pub fn labels(s: &str) -> Vec<Vec<u8>> {
             out.push(vec![b'X'; n.parse().unwrap()]);
         } else if let Some(n) = l.strip_prefix('@') {
             out.push(vec![b'x'; n.parse().unwrap()]);
+        } else if l.contains('%') {
+            // %HH = one arbitrary octet (binary labels: dots, NUL, 0xff, '[' vs '{' ...)
+            let b = l.as_bytes();
+            let mut v = vec![];
+            let mut i = 0;
+            while i < b.len() {
+                if b[i] == b'%' {
+                    v.push(u8::from_str_radix(&l[i + 1..i + 3], 16).expect("hex escape"));
+                    i += 3;
+                } else {
+                    v.push(b[i]);
+                    i += 1;
+                }
+            }
+            out.push(v);
         } else {
             out.push(l.as_bytes().to_vec());
         }
